@@ -571,11 +571,11 @@ fn show_entries(w: &World, entries: &[(BDDFunc, ExprRef)], tables: &[u128]) -> S
 }
 
 /// the invariant of one state
-fn oracle(w: &mut World, gc: &GuardCtx, s: &VS, den: &Den, ty: Ty, step: &Step, k: usize, hist: &str) -> Result<(usize, u64), Fail> {
+fn oracle(w: &mut World, gc: &GuardCtx, s: &VS, den: &Den, ty: Ty, step: &Step, k: usize, h: &History) -> Result<(usize, u64), Fail> {
     let entries = s.verif_entries();
     let op = step.op_name();
     if entries.is_empty() {
-        return Err(Fail { class: "empty".into(), op, step: k, what: format!("after [{hist}] the summary R{} has no entries", k + 1) });
+        return Err(Fail { class: "empty".into(), op, step: k, what: format!("after [{}] the summary R{} has no entries", h.text(), k + 1) });
     }
     let guards: Vec<BDDFunc> = entries.iter().map(|e| e.0).collect();
     let tables = guard_tables(w, gc, &guards);
@@ -590,7 +590,8 @@ fn oracle(w: &mut World, gc: &GuardCtx, s: &VS, den: &Den, ty: Ty, step: &Step, 
                 op,
                 step: k,
                 what: format!(
-                    "after [{hist}] the summary R{} has {} entry guards true under {} (expected exactly 1{}); entries: {}",
+                    "after [{}] the summary R{} has {} entry guards true under {} (expected exactly 1{}); entries: {}",
+                    h.text(),
                     k + 1,
                     sel.len(),
                     show_valuation(sg),
@@ -606,7 +607,8 @@ fn oracle(w: &mut World, gc: &GuardCtx, s: &VS, den: &Den, ty: Ty, step: &Step, 
                 op,
                 step: k,
                 what: format!(
-                    "after [{hist}] the summary R{} selects entry #{i} = {} under {}, which evaluates to {}'d{} but the operation applied to the arguments' values gives {}'d{}; entries: {}",
+                    "after [{}] the summary R{} selects entry #{i} = {} under {}, which evaluates to {}'d{} but the operation applied to the arguments' values gives {}'d{}; entries: {}",
+                    h.text(),
                     k + 1,
                     entries[i].1.serialize_to_str(&w.ctx),
                     show_valuation(sg),
@@ -627,29 +629,31 @@ fn oracle(w: &mut World, gc: &GuardCtx, s: &VS, den: &Den, ty: Ty, step: &Step, 
                         class: "coalesce-dup".into(),
                         op,
                         step: k,
-                        what: format!("after [{hist}] coalesce left entries #{i} and #{j} with the same value {}; entries: {}", entries[i].1.serialize_to_str(&w.ctx), show_entries(w, &entries, &tables)),
+                        what: format!("after [{}] coalesce left entries #{i} and #{j} with the same value {}; entries: {}", h.text(), entries[i].1.serialize_to_str(&w.ctx), show_entries(w, &entries, &tables)),
                     });
                 }
             }
         }
     }
     // denotation key: ordered list of (guard truth table, value denotation)
-    let mut key = String::new();
+    let mut key: u64 = 1469598103934665603;
+    let mut mix = |b: u8| key = (key ^ b as u64).wrapping_mul(1099511628211);
     for (i, t) in tables.iter().enumerate() {
-        key += &format!("{t:x}:");
-        for b in vals[i].v.iter() {
-            key.push((b'0' + *b) as char);
+        for b in t.to_le_bytes() {
+            mix(b);
         }
-        key.push(';');
+        for b in vals[i].v.iter() {
+            mix(*b);
+        }
+        mix(0xff);
     }
-    Ok((entries.len(), hash64(&key)))
+    Ok((entries.len(), key))
 }
 
 /// Replays the history on the real object in a fresh GuardCtx; checks the invariant after the
 /// last step (after every step when `check_all`).
 fn check_history(w: &mut World, h: &History, check_all: bool) -> Result<StateInfo, Fail> {
     let tys = h.types().expect("well-typed history");
-    let text = h.text();
     let n = h.steps.len();
     let mut dens: Vec<Den> = vec![];
     for s in h.steps.iter() {
@@ -677,12 +681,12 @@ fn check_history(w: &mut World, h: &History, check_all: bool) -> Result<StateInf
                     class: format!("panic|{}", p.file()),
                     op: run.last_op,
                     step: k,
-                    what: format!("[{text}]: {} panicked while computing R{}: {} ({})", run.last_op, k + 1, p.msg, p.short_loc()),
+                    what: format!("[{}]: {} panicked while computing R{}: {} ({})", h.text(), run.last_op, k + 1, p.msg, p.short_loc()),
                 });
             }
         };
         if check_all || k + 1 == n {
-            let (entries, key) = oracle(run.w, &run.gc, &s, &dens[k], tys[k], &h.steps[k], k, &text)?;
+            let (entries, key) = oracle(run.w, &run.gc, &s, &dens[k], tys[k], &h.steps[k], k, h)?;
             info.entries = entries;
             info.key = key;
         }
@@ -845,8 +849,29 @@ fn in_space(h: &History, al: &Alpha) -> bool {
 struct Local {
     counts: BTreeMap<String, u64>,
     hashes: Vec<u64>,
-    failing: Vec<(u64, History, String, &'static str)>,
+    /// per "class|op": the SHRINK_PER_CLASS smallest failing states in enumeration order
+    failing: Failing,
     max_entries: u64,
+}
+
+type Failing = BTreeMap<String, Vec<(u64, String, History)>>;
+
+fn failing_insert(f: &mut Failing, key: String, item: (u64, String, History)) {
+    let v = f.entry(key).or_default();
+    if v.len() >= SHRINK_PER_CLASS && (item.0, &item.1) >= (v[v.len() - 1].0, &v[v.len() - 1].1) {
+        return;
+    }
+    let pos = v.partition_point(|x| (x.0, &x.1) < (item.0, &item.1));
+    v.insert(pos, item);
+    v.truncate(SHRINK_PER_CLASS);
+}
+
+fn failing_merge(into: &mut Failing, from: Failing) {
+    for (k, v) in from {
+        for item in v {
+            failing_insert(into, k.clone(), item);
+        }
+    }
 }
 
 impl Local {
@@ -941,7 +966,7 @@ fn visit(w: &mut World, h: &History, path: &[usize], s: &Search, l: &mut Local) 
                 l.add(&format!("states_depth:{}", h.steps.len()), 1);
                 l.add(&format!("failing_states:{}|{}", f.class, f.op), 1);
                 enumerator_facts(h, l);
-                l.failing.push((order_of(path, h.pre), h.clone(), f.class, f.op));
+                failing_insert(&mut l.failing, format!("{}|{}", f.class, f.op), (order_of(path, h.pre), h.text(), h.clone()));
             }
             None
         }
@@ -973,53 +998,116 @@ fn dfs(w: &mut World, h: &mut History, path: &mut Vec<usize>, s: &Search, l: &mu
 }
 
 /// one pass: all histories allowed by `al`, from the given pre-state
-fn pass(template: &World, pre: u8, al: Alpha, earlier: Vec<Alpha>, budget: &Budget, rep: &Report, failing: &Mutex<Vec<(u64, History, String, &'static str)>>) -> bool {
+/// One pass: all histories allowed by `al` from the given pre-state. With `grouped`, the sub-trees
+/// of the first operations are completed one after the other (so that a budget cap leaves whole
+/// sub-families complete); returns (complete, first operations whose sub-tree is complete).
+#[allow(clippy::too_many_arguments)]
+fn pass(template: &World, pre: u8, al: Alpha, earlier: Vec<Alpha>, grouped: bool, budget: &Budget, rep: &Report, failing: &Mutex<Failing>) -> (bool, Vec<String>, usize) {
     let stop = AtomicBool::new(false);
     let s = Search { al, budget, stop: &stop, earlier };
-    // two breadth-first levels give the work items
     let root = History { pre, steps: vec![] };
-    let mut frontier: Vec<(History, Vec<usize>)> = successors(&root, &al).into_iter().enumerate().map(|(i, st)| (History { pre, steps: vec![st] }, vec![i])).collect();
+    let firsts: Vec<(History, Vec<usize>)> = successors(&root, &al).into_iter().enumerate().map(|(i, st)| (History { pre, steps: vec![st] }, vec![i])).collect();
+    let n_groups = if grouped { firsts.len() } else { 1 };
+    let groups: Vec<Vec<(History, Vec<usize>)>> = if grouped { firsts.into_iter().map(|f| vec![f]).collect() } else { vec![firsts] };
     let merge = |l: Local| {
         rep.merge_counts(&l.counts);
         rep.distinct_hashes(&l.hashes);
         rep.max("max_entries", l.max_entries);
-        failing.lock().unwrap().extend(l.failing);
+        failing_merge(&mut failing.lock().unwrap(), l.failing);
     };
-    if al.limit >= 3 {
-        let next: Vec<Vec<(History, Vec<usize>)>> = frontier
+    // breadth-first levels that produce the work items of the parallel depth-first search
+    let levels = if al.limit < 3 {
+        0
+    } else if grouped {
+        2
+    } else {
+        1
+    };
+    let mut completed = vec![];
+    for g in groups {
+        if stop.load(Ordering::Relaxed) || budget.exceeded() {
+            stop.store(true, Ordering::Relaxed);
+            break;
+        }
+        let name = step_text(&g[0].0.steps[0]);
+        let mut frontier = g;
+        for _ in 0..levels {
+            let next: Vec<Vec<(History, Vec<usize>)>> = frontier
+                .par_iter()
+                .map(|(h, path)| {
+                    let mut w = template.clone();
+                    let mut l = Local::default();
+                    let r = visit(&mut w, h, path, &s, &mut l);
+                    let mut out = vec![];
+                    if let Some(succ) = r {
+                        if succ.is_empty() && s.fresh(h) {
+                            l.add("maximal_histories", 1);
+                        }
+                        for (i, st) in succ.into_iter().enumerate() {
+                            let mut h2 = h.clone();
+                            h2.steps.push(st);
+                            let mut p2 = path.clone();
+                            p2.push(i);
+                            out.push((h2, p2));
+                        }
+                    }
+                    merge(l);
+                    out
+                })
+                .collect();
+            frontier = next.into_iter().flatten().collect();
+        }
+        frontier.par_iter().for_each(|(h, path)| {
+            let mut w = template.clone();
+            let mut l = Local::default();
+            let mut h = h.clone();
+            let mut path = path.clone();
+            dfs(&mut w, &mut h, &mut path, &s, &mut l);
+            merge(l);
+        });
+        if !stop.load(Ordering::Relaxed) {
+            completed.push(name);
+        }
+    }
+    (!stop.load(Ordering::Relaxed), completed, n_groups)
+}
+
+/// enumerator only: size of the space when no state is pruned (development aid, C20_COUNT_ONLY=1)
+fn count_space(tier: Tier) {
+    let alphas: Vec<Alpha> = if tier.is_thorough() { vec![Alpha { full: 3, limit: 4 }, Alpha { full: 4, limit: 5 }, Alpha { full: 5, limit: 5 }] } else { vec![Alpha { full: 3, limit: 4 }] };
+    for al in alphas {
+        fn rec(h: &mut History, al: &Alpha, by_depth: &mut [u64; 8]) {
+            for st in successors(h, al) {
+                h.steps.push(st);
+                by_depth[h.steps.len()] += 1;
+                rec(h, al, by_depth);
+                h.steps.pop();
+            }
+        }
+        let root = History { pre: 0, steps: vec![] };
+        let firsts = successors(&root, &al);
+        let parts: Vec<[u64; 8]> = firsts
             .par_iter()
-            .map(|(h, path)| {
-                let mut w = template.clone();
-                let mut l = Local::default();
-                let r = visit(&mut w, h, path, &s, &mut l);
-                let mut out = vec![];
-                if let Some(succ) = r {
-                    if succ.is_empty() && s.fresh(h) {
-                        l.add("maximal_histories", 1);
-                    }
-                    for (i, st) in succ.into_iter().enumerate() {
-                        let mut h2 = h.clone();
-                        h2.steps.push(st);
-                        let mut p2 = path.clone();
-                        p2.push(i);
-                        out.push((h2, p2));
-                    }
-                }
-                merge(l);
-                out
+            .flat_map(|st| {
+                let h = History { pre: 0, steps: vec![*st] };
+                successors(&h, &al).into_par_iter().map(move |s2| {
+                    let mut h = History { pre: 0, steps: vec![*st, s2] };
+                    let mut d = [0u64; 8];
+                    d[2] += 1;
+                    rec(&mut h, &al, &mut d);
+                    d
+                })
             })
             .collect();
-        frontier = next.into_iter().flatten().collect();
+        let mut tot = [0u64; 8];
+        tot[1] = firsts.len() as u64;
+        for p in parts {
+            for i in 0..8 {
+                tot[i] += p[i];
+            }
+        }
+        println!("alphabet full={} limit={}: histories by length {:?} total {}", al.full, al.limit, &tot[1..=al.limit], tot.iter().sum::<u64>());
     }
-    frontier.par_iter().for_each(|(h, path)| {
-        let mut w = template.clone();
-        let mut l = Local::default();
-        let mut h = h.clone();
-        let mut path = path.clone();
-        dfs(&mut w, &mut h, &mut path, &s, &mut l);
-        merge(l);
-    });
-    !stop.load(Ordering::Relaxed)
 }
 
 // ------------------------------------------------------------------------------------------
@@ -1147,6 +1235,21 @@ fn shrink_history(template: &World, h: &History, class: &str) -> History {
     cur
 }
 
+/// the panic message inside a `what` text ("... panicked ...: <message> (<location>)"), as a slug
+fn slug(what: &str) -> String {
+    let msg = what.rsplit_once(" (").map(|x| x.0).unwrap_or(what);
+    let msg = msg.rsplit_once(": ").map(|x| x.1).unwrap_or(msg);
+    let s: String = msg.chars().map(|c| if c.is_ascii_alphanumeric() { c.to_ascii_lowercase() } else { '-' }).collect();
+    let mut out = String::new();
+    for c in s.chars() {
+        if c == '-' && out.ends_with('-') {
+            continue;
+        }
+        out.push(c);
+    }
+    out.trim_matches('-').chars().take(48).collect()
+}
+
 fn arg_class(a: Arg) -> &'static str {
     match a {
         Arg::New(i) => match NEWS[i as usize].2 {
@@ -1171,9 +1274,15 @@ fn report_history(template: &World, rep: &Report, h: &History, class: &str, orde
         return;
     };
     let st = &min.steps[f.step.min(min.steps.len() - 1)];
-    let step_sig = format!("{}({})", st.short(), st.args().iter().map(|a| arg_class(*a)).collect::<Vec<_>>().join(","));
-    let shape = format!("{}{}", if min.pre == 1 { "rev:" } else { "" }, min.steps.iter().map(|s| s.short()).collect::<Vec<_>>().join(">"));
-    let sig = format!("C20|{}|{}|{}|{}", f.class, f.op, step_sig, shape);
+    let kind = |s: &Step| if matches!(s, Step::Bin(..)) { "bin".to_string() } else { s.short() };
+    let step_sig = format!("{}({})", kind(st), st.args().iter().map(|a| arg_class(*a)).collect::<Vec<_>>().join(","));
+    let shape = format!("{}{}", if min.pre == 1 { "rev:" } else { "" }, min.steps.iter().map(kind).collect::<Vec<_>>().join(">"));
+    let sig = if f.class.starts_with("panic|") {
+        // one defect, one signature per operation: the panic message identifies the defect
+        format!("C20|{}|{}|{}", f.class, f.op, slug(&f.what))
+    } else {
+        format!("C20|{}|{}|{}|{}", f.class, f.op, step_sig, shape)
+    };
     let mut case = min.to_json();
     case["found_in"] = json!(h.text());
     rep.violation(Violation { sig, what: f.what, case, order });
@@ -1353,6 +1462,14 @@ fn opaque_kind(t: &T) -> String {
     v.first().cloned().unwrap_or_else(|| "none".into())
 }
 
+fn guard_sig(class: &str, what: &str, min: &T, pre: u8) -> String {
+    if class.starts_with("panic|") {
+        format!("C20|{class}|expr_to_guard|{}", slug(what))
+    } else {
+        format!("C20|{class}|expr_to_guard|{}|{}", opaque_kind(min), if pre == 1 { "rev" } else { "fresh" })
+    }
+}
+
 fn run_guard_sweep(template: &World, tier: Tier, rep: &Report, budget: &Budget) {
     let t1 = g_t1();
     #[derive(Clone)]
@@ -1431,7 +1548,7 @@ fn run_guard_sweep(template: &World, tier: Tier, rep: &Report, budget: &Budget) 
         let min = g_shrink(&t, &same);
         let min_pre = if pre == 1 && matches!(guard_once(template, &min, 0), Some((c, _)) if c == class) { 0 } else { pre };
         let (cl, what) = guard_once(template, &min, min_pre).unwrap_or_else(|| guard_once(template, &t, pre).unwrap());
-        let sig = format!("C20|{cl}|expr_to_guard|{}|{}", opaque_kind(&min), if min_pre == 1 { "rev" } else { "fresh" });
+        let sig = guard_sig(&cl, &what, &min, min_pre);
         rep.violation(Violation { sig, what, case: json!({"kind": "guard", "term": min.to_string(), "pre": if min_pre == 1 { "rev" } else { "none" }, "found_in": t.to_string()}), order });
     }
 }
@@ -1444,20 +1561,24 @@ pub fn run(opts: &Opts, rep: &Report) {
         _ => unreachable!(),
     };
     let budget = Budget::new(opts.budget_s);
+    if std::env::var("C20_COUNT_ONLY").is_ok() {
+        count_space(tier);
+        std::process::exit(0);
+    }
     let template = World::new();
     run_guard_sweep(&template, tier, rep, &budget);
     rep.note("guard_sweep_wall_s", json!(rep.elapsed()));
 
-    let failing: Mutex<Vec<(u64, History, String, &'static str)>> = Mutex::new(vec![]);
-    // (pre-state, steps that may be any operation, total steps [the rest unary only])
-    let passes: Vec<(u8, usize, usize)> = if tier.is_thorough() {
-        vec![(0, 3, 4), (1, 3, 4), (0, 4, 5), (1, 4, 5), (0, 5, 5)]
+    let failing: Mutex<Failing> = Mutex::new(Failing::new());
+    // (pre-state, steps that may be any operation, total steps [the rest unary only], grouped)
+    let passes: Vec<(u8, usize, usize, bool)> = if tier.is_thorough() {
+        vec![(0, 3, 4, false), (1, 3, 4, false), (0, 4, 5, true)]
     } else {
-        vec![(0, 3, 4), (1, 2, 2)]
+        vec![(0, 3, 4, false), (1, 3, 3, false)]
     };
     let mut log = vec![];
     let mut done_alphas: Vec<(u8, Alpha)> = vec![];
-    for (pre, full, limit) in passes {
+    for (pre, full, limit, grouped) in passes {
         if budget.exceeded() {
             rep.cap_hit(&format!("budget: pass pre={pre} full={full} limit={limit} not started"));
             log.push(json!({"pre": pre, "any_operation_up_to": full, "unary_up_to": limit, "status": "skipped"}));
@@ -1467,13 +1588,22 @@ pub fn run(opts: &Opts, rep: &Report) {
         let s0 = rep.get("states");
         let al = Alpha { full, limit };
         let earlier: Vec<Alpha> = done_alphas.iter().filter(|(p, _)| *p == pre).map(|(_, a)| *a).collect();
-        let done = pass(&template, pre, al, earlier, &budget, rep, &failing);
+        let (done, completed, n_groups) = pass(&template, pre, al, earlier, grouped, &budget, rep, &failing);
         if !done {
-            rep.cap_hit(&format!("budget: pass pre={pre} full={full} limit={limit} stopped early"));
+            rep.cap_hit(&format!(
+                "budget: pass pre={pre} full={full} limit={limit} stopped early: sub-trees of {} of {} first operations complete",
+                completed.len(),
+                n_groups
+            ));
         } else {
             done_alphas.push((pre, al));
         }
-        log.push(json!({"pre": pre, "any_operation_up_to": full, "unary_up_to": limit, "complete": done, "new_states": rep.get("states") - s0, "wall_s": rep.elapsed() - t0}));
+        let mut entry = json!({"pre": pre, "any_operation_up_to": full, "unary_up_to": limit, "complete": done, "new_states": rep.get("states") - s0, "wall_s": rep.elapsed() - t0});
+        if grouped {
+            entry["first_operations_complete"] = json!(completed);
+            entry["first_operations"] = json!(n_groups);
+        }
+        log.push(entry);
     }
     rep.note("passes", Value::Array(log));
 
@@ -1490,18 +1620,16 @@ pub fn run(opts: &Opts, rep: &Report) {
     rep.note("search_done_wall_s", json!(rep.elapsed()));
     // deterministic reporting of failing states: sorted by enumeration order, the first few per
     // (class, operation) are shrunk and get a signature; all are counted
-    let mut bad = failing.into_inner().unwrap();
-    bad.sort_by(|a, b| (a.0, a.1.text()).cmp(&(b.0, b.1.text())));
-    let mut per: BTreeMap<String, usize> = BTreeMap::new();
-    let mut todo = vec![];
-    for (order, h, class, op) in bad {
-        let n = per.entry(format!("{class}|{op}")).or_default();
-        if *n >= SHRINK_PER_CLASS {
-            continue;
+    let bad = failing.into_inner().unwrap();
+    let mut todo: Vec<(u64, History, String)> = vec![];
+    for (key, v) in bad {
+        // key = "<class>|<op>"; the class is everything before the last field
+        let class = key.rsplit_once('|').map(|x| x.0.to_string()).unwrap_or(key.clone());
+        for (order, _, h) in v {
+            todo.push((order, h, class.clone()));
         }
-        *n += 1;
-        todo.push((order, h, class));
     }
+    todo.sort_by(|a, b| (a.0, a.1.text()).cmp(&(b.0, b.1.text())));
     todo.par_iter().for_each(|(order, h, class)| report_history(&template, rep, h, class, *order));
     for (i, (_, h, class)) in todo.iter().enumerate().take(3) {
         let _ = i;
@@ -1517,7 +1645,7 @@ pub fn replay(case: &Value, rep: &Report) {
             let t = terms::parse_t(case["term"].as_str().expect("term")).expect("parse term");
             let pre = if case["pre"].as_str() == Some("rev") { 1 } else { 0 };
             if let Some((cl, what)) = guard_once(&template, &t, pre) {
-                let sig = format!("C20|{cl}|expr_to_guard|{}|{}", opaque_kind(&t), if pre == 1 { "rev" } else { "fresh" });
+                let sig = guard_sig(&cl, &what, &t, pre);
                 rep.violation(Violation { sig, what, case: case.clone(), order: 0 });
             }
         }
